@@ -126,6 +126,7 @@ def run(ctx):
                 sig = {"kind": "confine", "accessor": c["acc"], "op": c["op"], "abs": c["abs"]}
                 ctx.violation(clause, sig, {k: c[k] for k in ("acc", "op", "segs", "abs", "res", "cls",
                                                                "touched", "val")})
+    dispatch_section(ctx, work)
     h = next(c for c in cases if c["kind"] == "hist")
     ctx.sample({"cfg": h["cfg"], "ops": [[e["op"], e["name"] or e["c"], e["v"], e["mime"], e["ow"], e["res"]]
                                          for e in h["events"]], "verdict": verdicts[h["tid"]][1]})
@@ -133,9 +134,66 @@ def run(ctx):
     ctx.sample({k: cf[k] for k in ("acc", "op", "segs", "abs", "res", "cls", "touched")})
 
 
+def dispatch_section(ctx, work):
+    """Dataset life cycle through get_accessor_for_url (spec/Dispatch.tla): the metadata is written,
+    replaced and made unreadable, accessors are opened in every URL form with / without the sharding
+    option (and over HTTP), chunks stored, sessions closed; after every step the storage form on disk
+    and the reads of freshly dispatched accessors are recorded and judged by Trace_Dispatch."""
+    from .. import dispatch_driver as dd
+    from .. import http_server, tlc
+    ctx.mc("MC_Dispatch", "MC_Dispatch", workers=8)      # complete: operation counter outside the VIEW
+    bad = tlc.model_check("MC_Dispatch", "MC_Dispatch_anyError", workers=4)
+    if bad["ok"]:
+        raise tlc.MachineryError("deviation switch Fallback=anyError did not violate the oracle")
+    ctx.notes["switch_anyError_violates"] = bad["invariant_violated"]
+    behs = []
+    for cfgname, n in (("Gen_Dispatch", ctx.pick(150, 2500)), ("Gen_Dispatch_long", ctx.pick(40, 1200))):
+        recs = ctx.export("Gen_Dispatch", cfgname, simulate="num=%d" % n,
+                          extra=["-depth", "16", "-seed", str(ctx.seed + 23)], workers=1)
+        behs += [json.loads(r[1]) for r in recs]
+    ctx.notes["dispatch_behaviours_from_tlc"] = len(behs)
+    hists = [b["ops"] for b in behs] + dd.directed_histories()
+    hists += [dd.random_history(ctx.rng, ctx.rng.randint(5, ctx.pick(12, 24))) for _ in range(ctx.pick(150, 4000))]
+    srv = http_server.Server(work)
+    dcases = []
+    try:
+        for k, ops in enumerate(hists):
+            c = dd.run_history(work, ops, srv, k + 1)
+            dcases.append(c)
+    finally:
+        srv.stop()
+    verdicts = ctx.judge("Trace_Dispatch", dcases, workers=8, chunk=1000)
+    for c in dcases:
+        ctx.count()
+        st, clause, pos = verdicts[c["tid"]]
+        ops = c["ops"]
+        if any(o["op"] == "store" for o in ops):
+            ctx.nontrivial(json.dumps([[o.get(k) for k in ("op", "h", "scheme", "so", "k", "b", "v", "url")]
+                                       for o in ops]))
+        if st != "ok":
+            e = c["events"][pos - 1]
+            sig = {"kind": "dispatch", "op": e["op"], "scheme": e.get("scheme", ""), "so": e.get("so", ""),
+                   "res": e.get("res", "")}
+            ctx.violation(clause, sig, {"dispatch_ops": ops, "step": pos, "failing_event": e})
+    d0 = next((c for c in dcases if any(o["op"] == "store" for o in c["ops"])), dcases[0])
+    ctx.sample({"dispatch_ops": [[o.get(k) for k in ("op", "h", "scheme", "so", "k", "b", "v") if o.get(k) is not None]
+                                 for o in d0["ops"]], "verdict": verdicts[d0["tid"]][1]}, limit=4)
+
+
 def replay(ctx, path):
     d = json.load(open(path))["detail"]
     work = ctx.scratch("verif_c12_")
+    if "dispatch_ops" in d:
+        from .. import dispatch_driver as dd
+        from .. import http_server
+        srv = http_server.Server(work)
+        try:
+            case = dd.run_history(work, d["dispatch_ops"], srv, 1)
+        finally:
+            srv.stop()
+        v = ctx.judge("Trace_Dispatch", [case])
+        print("replay verdict:", v[1])
+        return 0 if v[1][0] == "ok" else 1
     if "ops" in d:
         case = fd.run_history(work, d["cfg"], d["ops"], level=d.get("level", 9))
     else:
